@@ -75,7 +75,42 @@ def c05_shape():
                "QueryBody serializes exactly the members variables, query, operationName", json.dumps(names))]
 
 
+# replay families that are clean on the unchanged tree and cheap: run on every check as a bounded part (never counted as proved).
+# They cover code that is not under contract (schema front-ends, used-types closure, ...) and trees the deductive check cannot decide.
+ALWAYS_REPLAY = ("C04", "C05", "C08", "C09", "C10", "C11", "C12", "C13", "C17")
+
+
+def replay_part(pid, tier):
+    import vxreplay
+    fam = vxreplay.FAMILIES.get(pid)
+    if fam is None:
+        return []
+    r = {"obligation": pid + ".replay.bounded", "status": "ok", "engine": "bounded witness search through the real crates (vx-replay)", "bounded": True,
+         "what": "the property's replay family: generated cases with an oracle taken from the property statement", "bound": "the cases enumerated by lib/vxreplay.py %s (tier %s)" % (fam.__name__, tier),
+         "trusted": [], "cmd": "vx-replay", "cases": 0}
+    try:
+        vxreplay.ensure_built()
+        for case, oracle in fam(tier):
+            r["cases"] += 1
+            res = vxreplay.run_case(case, timeout=20 if pid == "C17" else 60)
+            why = oracle(res)
+            if why:
+                r["status"] = "fail"
+                r["detail"] = why
+                r["witness"] = {"case": case, "observed": why, "cases_tried": r["cases"], "bounded": True, "how": "vx-replay (real crates built from /repo's working tree)"}
+                break
+    except RuntimeError as e:
+        r["status"] = "undecided"
+        r["detail"] = str(e)
+    return [r]
+
+
 def extra_checks(pid, tier):
+    out0 = replay_part(pid, tier) if pid in ALWAYS_REPLAY else []
+    return out0 + extra_checks_inner(pid, tier)
+
+
+def extra_checks_inner(pid, tier):
     try:
         if pid in ("C13", "C07", "C03", "C14", "C06"):
             import vxbounded
